@@ -76,6 +76,7 @@ package pqueue
 // PeekAndShift(max): hands out the root only if its Priority (deadline) is <= max - never early -
 // otherwise nothing, with the queue untouched and the time still to wait.
 //@ func (pq *PriorityQueue) PeekAndShift(max int64) (*Item, int64)
+//@   keeps r4BExitTests, r4BExitTestChan, r4BExitTestSaw, r4BExitTestHeld
 //@   props C04
 //@   ghostparam gm *Item
 //@   requires pq != nil && pqWf(*pq)
